@@ -398,3 +398,66 @@ Proof.
   unfold symdiff_count. rewrite diff_self. cbn [length Nat.add Nat.ltb Nat.leb].
   rewrite (check_invariants_ok c p p [] V (contains_nil p)). reflexivity.
 Qed.
+
+(* ------------------------------------------------------------------ *)
+(* What |a Δ b| <= 1 means for sets                                    *)
+(* ------------------------------------------------------------------ *)
+
+Lemma diff_nil_subset : forall a b, diff a b = [] -> forall y, mem y a = true -> mem y b = true.
+Proof.
+  intros a b H y Hy. assert (M : mem y (diff a b) = false) by (rewrite H; reflexivity).
+  unfold diff in M. rewrite mem_filter, Hy in M. cbn [andb] in M.
+  apply negb_false_iff in M. exact M.
+Qed.
+
+Lemma diff_single : forall a b x, diff a b = [x] ->
+  forall y, mem y a && negb (mem y b) = (y =? x).
+Proof.
+  intros a b x H y. assert (M : mem y (diff a b) = (y =? x)).
+  { rewrite H. cbn [mem]. apply orb_false_r. }
+  unfold diff in M. rewrite mem_filter in M. exact M.
+Qed.
+
+(* at most one member differs: equal, or one id added, or one id removed *)
+Theorem symdiff_le1_cases : forall a b,
+  sorted a = true -> sorted b = true -> (symdiff_count a b <= 1)%nat ->
+  a = b \/
+  (exists x, mem x b = false /\ a = insert x b) \/
+  (exists x, mem x a = false /\ b = insert x a).
+Proof.
+  intros a b Sa Sb H. unfold symdiff_count in H.
+  destruct (diff a b) as [|x [|x' l]] eqn:Da; destruct (diff b a) as [|y [|y' l']] eqn:Db;
+    cbn [length] in H; try lia.
+  - left. apply sorted_ext; auto. intros z.
+    pose proof (diff_nil_subset _ _ Da z). pose proof (diff_nil_subset _ _ Db z).
+    destruct (mem z a), (mem z b); auto; try (symmetry; auto).
+  - right. right. exists y.
+    pose proof (diff_single _ _ _ Db) as Hs. split.
+    + pose proof (Hs y) as Hy. rewrite N.eqb_refl in Hy. apply andb_true_iff in Hy.
+      destruct Hy as [_ Hy]. apply negb_true_iff in Hy. exact Hy.
+    + apply sorted_ext; auto with srt. intros z. rewrite mem_insert.
+      pose proof (Hs z) as Hz. pose proof (diff_nil_subset _ _ Da z) as Hsub.
+      destruct (mem z a), (mem z b), (z =? y); cbn in *; auto; try discriminate;
+        symmetry; auto.
+  - right. left. exists x.
+    pose proof (diff_single _ _ _ Da) as Hs. split.
+    + pose proof (Hs x) as Hx. rewrite N.eqb_refl in Hx. apply andb_true_iff in Hx.
+      destruct Hx as [_ Hx]. apply negb_true_iff in Hx. exact Hx.
+    + apply sorted_ext; auto with srt. intros z. rewrite mem_insert.
+      pose proof (Hs z) as Hz. pose proof (diff_nil_subset _ _ Db z) as Hsub.
+      destruct (mem z a), (mem z b), (z =? x); cbn in *; auto; try discriminate;
+        symmetry; auto.
+Qed.
+
+(* a successful simple change adds one voter, removes one voter, or keeps the voters *)
+Theorem simple_delta_cases : forall c p ccs c' chs,
+  ValidB c p -> simple c p ccs = ROk (c', chs) ->
+  incoming c' = incoming c \/
+  (exists x, mem x (incoming c) = false /\ incoming c' = insert x (incoming c)) \/
+  (exists x, mem x (incoming c') = false /\ incoming c = insert x (incoming c')).
+Proof.
+  intros c p ccs c' chs V H.
+  destruct (simple_delta c p ccs c' chs H) as [Hd _].
+  destruct (changer_preserves_simple c p ccs c' chs V H) as [V' _].
+  apply symdiff_le1_cases; eauto with srt.
+Qed.
